@@ -188,3 +188,4 @@ fn c07_transform_frame() {
         kani::cover!(in_place && !copy && REMOVES > 0, "cover.in_place_no_copy");
     }
 }
+
